@@ -18,6 +18,7 @@ import (
 	"github.com/256dpi/lungo"
 
 	"verif/internal/e1"
+	"verif/internal/sched"
 	"verif/internal/world"
 )
 
@@ -266,6 +267,25 @@ func c06Values() []interface{} {
 func init() {
 	Register("C06", "model_checking", func(c *Ctx) {
 		r := c.R
+		// part (e) runs under the controlled scheduler, one scenario per worker process
+		schedBound := 2
+		if !c.Quick() {
+			schedBound = 3
+		}
+		_, _, isSchedReplay := e3Replay(c)
+		if os.Getenv("VERIF_SHARD") != "" || isSchedReplay {
+			if !sched.Available {
+				r.Broken("binary built without the scheduler overlay")
+				return
+			}
+			execs, trans, outs, exh, per := c06Sched(c, schedBound)
+			r.Set("close_race_executions", execs)
+			r.Set("close_race_transitions", trans)
+			r.Set("close_race_outcomes", outs)
+			r.Set("exhaustive", exh && !r.TooMany())
+			r.Set("samples", per)
+			return
+		}
 		work := os.Getenv("VERIF_WORK")
 		if work == "" {
 			work = filepath.Join(os.TempDir(), "c06")
@@ -429,6 +449,22 @@ func init() {
 		st.Transitions += st2.Transitions
 		st.Exhaustive = st.Exhaustive && st2.Exhaustive
 		r.Set("states_with_trimming_retention", st2.States)
+		// (e) a Close racing the writes in flight
+		var schedSamples []interface{}
+		if !sched.Available {
+			r.Broken("binary built without the scheduler overlay")
+		} else if !r.TooMany() {
+			execs, trans, outs, exh, per := c06Sched(c, schedBound)
+			r.Set("close_race_executions", execs)
+			r.Set("close_race_transitions", trans)
+			r.Set("close_race_outcomes", outs)
+			r.Set("close_race_preemption_bound", int64(schedBound))
+			st.Exhaustive = st.Exhaustive && exh
+			schedSamples = per
+			if execs < 500 {
+				r.Broken("vacuity: %d scheduled executions", execs)
+			}
+		}
 		r.Set("value_cases", valueCases)
 		r.Set("value_cases_rejected_at_insert", rejected)
 		r.Set("index_option_cases", indexCases)
@@ -442,8 +478,8 @@ func init() {
 		r.Set("evaluations", valueCases+indexCases+stateCases)
 		r.Set("traces_validated_against_impl", st.Transitions)
 		r.Set("exhaustive", st.Exhaustive && !r.TooMany())
-		r.Set("samples", []interface{}{map[string]interface{}{"shortest_paths": toIface(st.Shortest)}, map[string]interface{}{"longest_paths": toIface(st.Longest)}, map[string]interface{}{"values": len(c06Values())}})
-		r.Set("rule", "every value of a BSON value alphabet at a top-level, embedded and array position and as _id (where accepted), and every combination of index key x unique x partial filter x TTL x name, is stored through the real FileStore to disk and loaded by a second FileStore; every state reached by every sequence <= max_depth of the C01 alphabet plus dotted namespaces and array-emptying updates is round-tripped through the store's encoder/decoder. Oracle: the typed dump (Go type of every value, natural order, index definitions, change log) of the loaded catalog equals that of the stored one, the loaded indexes are coherent and unique, and engines opened on both answer the same to behaviour probes (duplicate probes, $type/$size/null/[] counts per field, sort order, index specifications, a TTL pass)")
+		r.Set("samples", []interface{}{map[string]interface{}{"shortest_paths": toIface(st.Shortest)}, map[string]interface{}{"longest_paths": toIface(st.Longest)}, map[string]interface{}{"values": len(c06Values())}, map[string]interface{}{"close_race_scenarios": schedSamples}})
+		r.Set("rule", "every value of a BSON value alphabet at a top-level, embedded and array position and as _id (where accepted), and every combination of index key x unique x partial filter x TTL x name, is stored through the real FileStore to disk and loaded by a second FileStore; every state reached by every sequence <= max_depth of the C01 alphabet plus dotted namespaces and array-emptying updates is round-tripped through the store's encoder/decoder. Oracle: the typed dump (Go type of every value, natural order, index definitions, change log) of the loaded catalog equals that of the stored one, the loaded indexes are coherent and unique, and engines opened on both answer the same to behaviour probes (duplicate probes, $type/$size/null/[] counts per field, sort order, index specifications, a TTL pass). Part (e), E3: every interleaving (preemption bound close_race_preemption_bound, one less for the three-thread scenarios) of Engine.Close with an insert, update, delete, session transaction, index build, drop, bulk insert, a second writer, a second Close or the expiry pass; after all calls returned the dump of the closed engine's catalog, of the stored catalog and of the stored bytes decoded again are equal, and a call's effect is in the reopened database exactly when the call was acknowledged")
 		r.Assume("values rejected at insert (e.g. arrays or regular expressions as _id) are counted, not reloaded")
 		if valueCases < 150 || indexCases < 100 || st.States < 300 {
 			r.Broken("vacuity: values=%d index combos=%d states=%d", valueCases, indexCases, st.States)
